@@ -289,18 +289,39 @@ func (g *Graph) ReturnKind(ex Exit) RetKind {
 			if v, ok := o.(*types.Var); ok && v.Pkg() != nil && v.Parent() == v.Pkg().Scope() && implementsError(v.Type()) {
 				return RetError // package-level sentinel error
 			}
+			// a local assigned once, in the return's own block, from an error constructor
+			// (`e := fmt.Errorf(…); return e`)
+			if as := g.AssignsTo(o); len(as) == 1 && as[0].Loc.B == ex.Loc.B && as[0].Loc.I < ex.Loc.I {
+				if a, isA := as[0].Node.(*ast.AssignStmt); isA && len(a.Lhs) == 1 && len(a.Rhs) == 1 {
+					if k := classifyErrExpr(g.Info, a.Rhs[0]); k != RetUnknown {
+						return k
+					}
+				}
+			}
+		}
+		return RetUnknown
+	}
+	return classifyErrExpr(g.Info, last)
+}
+
+// classifyErrExpr classifies an expression returned as the error result.
+func classifyErrExpr(info *types.Info, last ast.Expr) RetKind {
+	last = ast.Unparen(last)
+	if id, ok := last.(*ast.Ident); ok {
+		if _, isNil := info.Uses[id].(*types.Nil); isNil {
+			return RetSuccess
 		}
 		return RetUnknown
 	}
 	if c, ok := last.(*ast.CallExpr); ok {
-		switch CalleeName(g.Info, c) {
+		switch CalleeName(info, c) {
 		case "fmt.Errorf", "errors.New", "errors.Join":
 			return RetError
 		}
 		return RetUnknown
 	}
 	if se, ok := last.(*ast.SelectorExpr); ok {
-		if v, ok := g.Info.Uses[se.Sel].(*types.Var); ok && !v.IsField() && implementsError(v.Type()) {
+		if v, ok := info.Uses[se.Sel].(*types.Var); ok && !v.IsField() && implementsError(v.Type()) {
 			return RetError // pkg.ErrX
 		}
 	}
@@ -420,4 +441,34 @@ func (g *Graph) FailureReaches(h Hit, target Loc) (reaches bool, checked bool) {
 		return reaches, true
 	}
 	return true, false
+}
+
+// ReturnedExpr returns the expression a return statement yields as its i-th result, looking
+// through a temporary that is assigned once, in the return's own block, just for that purpose
+// (`v := f(x); return v` is `return f(x)`).
+func (g *Graph) ReturnedExpr(ex Exit, i int) ast.Expr {
+	if ex.Return == nil || i >= len(ex.Return.Results) {
+		return nil
+	}
+	e := ex.Return.Results[i]
+	id, ok := ast.Unparen(e).(*ast.Ident)
+	if !ok {
+		return e
+	}
+	o := g.Info.Uses[id]
+	if v, isV := o.(*types.Var); !isV || v.IsField() || v.Pkg() == nil || v.Parent() == v.Pkg().Scope() {
+		return e
+	}
+	as := g.AssignsTo(o)
+	if len(as) != 1 || as[0].Loc.B != ex.Loc.B || as[0].Loc.I >= ex.Loc.I {
+		return e
+	}
+	if a, isA := as[0].Node.(*ast.AssignStmt); isA && len(a.Lhs) == len(a.Rhs) {
+		for k, l := range a.Lhs {
+			if lid, isID := l.(*ast.Ident); isID && g.Info.ObjectOf(lid) == o {
+				return a.Rhs[k]
+			}
+		}
+	}
+	return e
 }
